@@ -74,8 +74,10 @@ def cases(tier, seed):
 
 
 def _ro(a):
-    a.setflags(write=False)
-    return a
+    """Read-only view keeping the memory layout of `a`."""
+    v = np.asarray(a).view()
+    v.setflags(write=False)
+    return v
 
 
 def _shared_digest():
@@ -127,8 +129,11 @@ def run_case(case):
     dt = np.dtype(case['dtype'])
     shape, kf, mode = case['shape'], case['kf'], case['dir']
     nb, nkeys = len(blocks), len(keys)
-    arr_b = _ro(blocks.astype(dt) if shape in ('many_one', 'paired') else blocks[0].astype(dt))
-    arr_k = _ro(keys.astype(dt) if shape in ('one_many', 'paired') else keys[0].astype(dt))
+    from .. import gen as _gen
+    lay = np.random.default_rng(case['sub'] ^ 0x5eed)
+    arr_b = _ro(_gen.layout_nd(lay, blocks.astype(dt)) if shape in ('many_one', 'paired') else blocks[0].astype(dt))
+    arr_k = _ro(_gen.layout_nd(lay, keys.astype(dt)) if shape in ('one_many', 'paired') else keys[0].astype(dt))
+    t.count('layout:' + ('C' if arr_b.flags.c_contiguous and arr_k.flags.c_contiguous else 'non_C'))
     snap = (arr_b.tobytes(), arr_k.tobytes())
     n = max(nb, nkeys)
     traces = [D.tdes_trace(blocks[i if nb > 1 else 0].tolist(), keys[i if nkeys > 1 else 0].tolist(), mode) for i in range(n)]
